@@ -3,6 +3,7 @@ package main
 // C06: Fork, Split and Join conserve, order and terminate streams.
 
 import (
+	"strconv"
 	"time"
 
 	col "github.com/craterdog/go-collection-framework/v4/collection"
@@ -13,6 +14,7 @@ type pipeProg struct {
 	Input []int  `json:"input"`
 	Fan   int    `json:"fan"`
 	Cap   int    `json:"cap"`
+	Elem  string `json:"elem"` // int | string (one value of the stream is the empty string) | any (one value is nil)
 }
 
 type pipeRun struct {
@@ -24,16 +26,53 @@ type pipeRun struct {
 	picked []int
 	closed []bool // every reader saw ok=false
 	late   bool   // a value arrived after closure
+	reg    int    // helpers registered with the wait group when the class function returned
 }
 
+// the stream is a list of distinct ids; the element type decides how an id travels
 func runPipe(p pipeProg, rng *Rng, choices []int) pipeRun {
+	special := -1 // the id that travels as the undefined value of the element type
+	if len(p.Input) > 1 {
+		special = p.Input[1]
+	}
+	switch p.Elem {
+	case "string":
+		return runPipeT[string](p, rng, choices, func(i int) string {
+			if i == special {
+				return ""
+			}
+			return strconv.Itoa(i)
+		}, func(v string) int {
+			if v == "" {
+				return special
+			}
+			n, _ := strconv.Atoi(v)
+			return n
+		})
+	case "any":
+		return runPipeT[any](p, rng, choices, func(i int) any {
+			if i == special {
+				return nil
+			}
+			return i
+		}, func(v any) int {
+			if v == nil {
+				return special
+			}
+			return v.(int)
+		})
+	}
+	return runPipeT[int](p, rng, choices, func(i int) int { return i }, func(v int) int { return v })
+}
+
+func runPipeT[V any](p pipeProg, rng *Rng, choices []int, conv func(int) V, back func(V) int) pipeRun {
 	s := newSched(rng, choices)
 	defer s.stop()
-	class := col.Queue[int](notation)
+	class := col.Queue[V](notation)
 	input := class.MakeWithCapacity(uint(p.Cap))
 	grp := &group{s: s}
 	var res pipeRun
-	var outputs []col.QueueLike[int]
+	var outputs []col.QueueLike[V]
 	// the library helpers are started before the scheduler takes control of the workers;
 	// they run freely up to their first synchronisation point and are adopted there
 	switch p.Op {
@@ -45,15 +84,18 @@ func runPipe(p pipeProg, rng *Rng, choices []int) pipeRun {
 		s.expected = 1
 	default:
 		mids := class.Split(grp, input, uint(p.Fan))
-		outputs = []col.QueueLike[int]{class.Join(grp, mids)}
+		outputs = []col.QueueLike[V]{class.Join(grp, mids)}
 		s.expected = 2
 	}
+	// the helpers must be registered with the caller's group before the function returns:
+	// a caller that waits on the group straight away must not get through
+	res.reg = grp.registered()
 	res.outs = make([][]int, len(outputs))
 	res.closed = make([]bool, len(outputs))
 	s.spawn(func(t int) { // feeder
 		for _, v := range p.Input {
 			s.record(J{"call": "addLock", "t": t, "v": v})
-			input.AddValue(v)
+			input.AddValue(conv(v))
 			s.record(J{"ret": "AddValue", "t": t})
 		}
 		s.record(J{"call": "closeLock", "t": t, "v": 0})
@@ -65,7 +107,11 @@ func runPipe(p pipeProg, rng *Rng, choices []int) pipeRun {
 		s.spawn(func(t int) { // one reader per output
 			for {
 				s.record(J{"call": "remRecv", "t": t, "v": 0})
-				v, ok := o.RemoveHead()
+				w, ok := o.RemoveHead()
+				v := 0
+				if ok {
+					v = back(w)
+				}
 				s.record(J{"ret": "RemoveHead", "t": t, "v": v, "ok": ok})
 				if !ok {
 					res.closed[k] = true
@@ -100,7 +146,7 @@ func runPipe(p pipeProg, rng *Rng, choices []int) pipeRun {
 
 func pipeLine(out *Out, caseID int, p pipeProg, r pipeRun, mode string) {
 	out.emit(J{"k": "pipe", "pid": "C06", "case": caseID, "prog": p, "op": p.Op, "input": ints(p.Input), "fan": p.Fan, "cap": p.Cap,
-		"outs": r.outs, "status": r.status, "group": r.group, "closed": r.closed, "late": r.late, "mode": mode, "steps": len(r.picked)})
+		"outs": r.outs, "status": r.status, "group": r.group, "closed": r.closed, "late": r.late, "mode": mode, "steps": len(r.picked), "reg": r.reg, "helpers": map[string]int{"fork": 1, "split": 1, "splitjoin": 2}[p.Op], "elem": p.Elem})
 }
 
 func runC06(tier string, seed int64, out *Out) {
@@ -120,7 +166,7 @@ func runC06(tier string, seed int64, out *Out) {
 					for i := range in {
 						in[i] = 10 + i
 					}
-					p := pipeProg{op, in, fan, cap}
+					p := pipeProg{op, in, fan, cap, []string{"int", "string", "any"}[(n+fan+cap)%3]}
 					progs++
 					// depth-first enumeration of schedules by replay
 					var prefix []int
@@ -158,7 +204,7 @@ func runC06(tier string, seed int64, out *Out) {
 		for j := range in {
 			in[j] = j
 		}
-		p := pipeProg{[]string{"fork", "split", "splitjoin"}[i%3], in, 2 + rng.Intn(7), 1 + rng.Intn(3)}
+		p := pipeProg{[]string{"fork", "split", "splitjoin"}[i%3], in, 2 + rng.Intn(7), 1 + rng.Intn(3), []string{"int", "string", "any"}[(i/3)%3]}
 		r := runPipe(p, &rng, nil)
 		caseID++
 		pipeLine(out, caseID, p, r, "random-long")
